@@ -373,7 +373,34 @@ Definition obs_hash (code : Z) (nd : node) : Z := hash_list (flat_obs code nd).
 (** A scripted scenario on one node: deliveries, restarts ("R": the node continues with the
     restored status), shadow restarts ("S": the restored status is only observed) and direct
     libStatus.gc(bps) calls; each op carries the hash of the implementation's observation. *)
-Inductive op := OpD (b : block) (h : Z) | OpR (h : Z) | OpS (h : Z) | OpG (bps : list Z) (h : Z).
+Inductive op := OpD (b : block) (h : Z) | OpR (h : Z) | OpS (h : Z) | OpG (bps : list Z) (h : Z)
+  (* chain-side tie (real ChainService with a recording consensus stub and a scripted LIB):
+     OpL sets the LIB number; OpC delivers a block and carries the hash of the consensus
+     calls the chain service made, the best block and the main chain *)
+  | OpL (n : Z) | OpC (b : block) (h : Z).
+
+(** The consensus calls chain.addBlock / chain.reorg make for one delivered block, as implied
+    by [deliver]: 1 no = VerifyTimestamp(block no), 2 r = NeedReorganization(root no),
+    3 id = Update(block id), 4 = Save. *)
+Definition deliver_calls (nd : node) (blk : block) : list Z :=
+  match snd (deliver nd blk) with
+  | ODup | OLeLib | OOrphan | OInvalid | OSide => [1; k_no blk]   (* VerifyTimestamp comes first *)
+  | OConnected => [1; k_no blk; 3; k_id blk; 4]
+  | OVeto | OReorg =>
+      match gather (length (blk :: nd_store nd)) (nd_main nd) (blk :: nd_store nd) blk [] with
+      | Some (root, nb) =>
+          [1; k_no blk; 2; k_no root] ++
+          (if need_reorganization (st_ls (nd_st nd)) (k_no root)
+           then 3 :: k_id root :: flat_map (fun b => [3; k_id b]) nb ++ [4] else [])
+      | None => []
+      end
+  end.
+Definition set_node_lib (nd : node) (n : Z) : node :=
+  mkNode (nd_size nd) (nd_self nd)
+         (mkSt (set_lib (st_ls (nd_st nd)) (mkB (-1) n 0)) (st_best (nd_st nd)))
+         (nd_main nd) (nd_store nd) (nd_saved nd).
+Definition chain_obs_hash (calls : list Z) (nd : node) : Z :=
+  hash_list (calls ++ k_id (st_best (nd_st nd)) :: Z.of_nat (length (nd_main nd)) :: main_ids nd).
 Definition gc_node (nd : node) (bps : list Z) : node :=
   mkNode (nd_size nd) (nd_self nd) (mkSt (gc (st_ls (nd_st nd)) bps) (st_best (nd_st nd)))
          (nd_main nd) (nd_store nd) (nd_saved nd).
@@ -393,6 +420,10 @@ Fixpoint scenario_check (nd : node) (ops : list op) (i : nat) : option nat :=
   | OpG bps h :: tl =>
       let nd' := gc_node nd bps in
       if obs_hash 9 nd' =? h then scenario_check nd' tl (S i) else Some i
+  | OpL n :: tl => scenario_check (set_node_lib nd n) tl (S i)
+  | OpC b h :: tl =>
+      let nd' := fst (deliver nd b) in
+      if chain_obs_hash (deliver_calls nd b) nd' =? h then scenario_check nd' tl (S i) else Some i
   end.
 
 (* the model's flattened observation after op [i] (for the replay of a mismatch) *)
@@ -406,8 +437,16 @@ Fixpoint scenario_obs_at (nd : node) (ops : list op) (i : nat) : list Z :=
         | OpR _ => (restart nd, 8, restart nd)
         | OpS _ => (restart nd, 8, nd)
         | OpG bps _ => (gc_node nd bps, 9, gc_node nd bps)
+        | OpL n => (set_node_lib nd n, 10, set_node_lib nd n)
+        | OpC b _ => (fst (deliver nd b), 11, fst (deliver nd b))
         end in
-      match i with O => flat_obs code nd' | S j => scenario_obs_at keep tl j end
+      match i with
+      | O => match o with
+             | OpC b _ => deliver_calls nd b ++ k_id (st_best (nd_st nd')) :: Z.of_nat (length (nd_main nd')) :: main_ids nd'
+             | _ => flat_obs code nd'
+             end
+      | S j => scenario_obs_at keep tl j
+      end
   end.
 
 Definition scenario_ok (c : (Z * Z) * list op) : bool :=
